@@ -10,6 +10,7 @@ A program is plain JSON:
 Expressions: ['lit', x] ['in', name] ['val', name] ['if', c, a, b] ['add', a, b]
              ['none'] ['ni'] ['cnt', input_name, form, line]
 """
+import json
 import math
 
 from hypothesis import strategies as st
@@ -18,7 +19,7 @@ import habutax.fields as hf
 import habutax.form as hform
 import habutax.inputs as hi
 
-LINE_POOL = ['1', '1a', '2', '2b', '3', '10', 'wk_3', 'x']
+LINE_POOL = ['1', '1a', '2', '2b', '3', '10', 'wk_3', 'x', '1_a', '02']   # '1_a'/'1a' and '02'/'2' have equal natural-sort keys
 INPUT_POOL = ['n', 'a', 'b', 'flag']
 FORM_POOL = ['fa', 'fb', 'fc', 'fd']
 PLACES = 2
@@ -73,6 +74,14 @@ def _interp(expr, s, i, v, reads):
         val = v[expr[1]]
         reads.append(('v', expr[1], val))
         return val
+    if op == 'get':
+        val = v.get(expr[1], expr[2])          # Mapping protocol on the values accessor
+        reads.append(('v', expr[1], val))
+        return val
+    if op == 'has':
+        val = expr[1] in v
+        reads.append(('v', expr[1], val))
+        return 1 if val else 0
     if op == 'if':
         c = _interp(expr[1], s, i, v, reads)
         if c is not None and c != 0:
@@ -277,6 +286,12 @@ def model(program):
             return read_input(owner, expr[1])
         if op == 'val':
             return read_line(owner, expr[1])
+        if op == 'get':
+            # a line read through .get() is a read like any other: an unknown line is demanded, never defaulted
+            return read_line(owner, expr[1])
+        if op == 'has':
+            read_line(owner, expr[1])
+            return 1
         if op == 'if':
             c = ev(expr[1], owner)
             return ev(expr[2], owner) if (c is not None and c != 0) else ev(expr[3], owner)
@@ -416,6 +431,9 @@ def programs(draw, bad_refs=False, max_forms=4, prompt_modes=('none', 'total', '
             leaves.append(st.builds(lambda n_: ['in', n_], st.sampled_from(all_input_refs)))
         leaves.append(st.just(['none']))
         leaves.append(st.just(['ni']))
+        if all_line_refs:
+            leaves.append(st.builds(lambda n_, d_: ['get', n_, d_], st.sampled_from(all_line_refs), st.sampled_from([0, 7])))
+            leaves.append(st.builds(lambda n_: ['has', n_], st.sampled_from(all_line_refs)))
         counts = [(x['name'], f2) for x in owner['inputs'] if x['type'] == 'int'
                   for f2 in forms if f2['kind'] in ('numbered', 'inputform')]
         if counts:
@@ -443,11 +461,22 @@ def programs(draw, bad_refs=False, max_forms=4, prompt_modes=('none', 'total', '
         for l in f['lines']:
             l['expr'] = expr(f, draw(st.integers(0, 2)))
 
-    # request: first form always, others sometimes (with an instance where needed)
+    # twin lines: a second line whose name has the same natural-sort key ('2'/'02', '1a'/'1_a') and the
+    # same definition, so both wait for and are released by the same things in the same round
+    for f in forms:
+        if f['lines'] and draw(st.integers(0, 4)) == 0:
+            src = f['lines'][draw(st.integers(0, len(f['lines']) - 1))]
+            n_ = src['name']
+            twin = ('0' + n_) if n_.isdigit() else (n_[:-1] + '_' + n_[-1] if n_[:-1].isdigit() and n_[-1].isalpha() else None)
+            if twin and twin not in [l['name'] for l in f['lines']]:
+                f['lines'].append({'name': twin, 'required': True, 'expr': json.loads(json.dumps(src['expr']))})
     request = [forms[0]['name']]
     for f in forms[1:]:
-        if draw(st.integers(0, 3)) == 0:
+        r_ = draw(st.integers(0, 5))
+        if r_ == 0:
             request.append(draw(st.sampled_from(inst_names(f))))
+        elif r_ == 1:
+            request.extend(inst_names(f))
     request = draw(st.permutations(request))
 
     # inputs: present / absent, mostly valid spellings
@@ -482,7 +511,7 @@ def has_cycle_or_self(program):
             stack = [l['expr']]
             while stack:
                 e = stack.pop()
-                if e[0] == 'val':
+                if e[0] in ('val', 'get', 'has'):
                     tgt = e[1] if '.' in e[1] else f'{f["name"]}.{e[1]}'
                     tgt = tgt.split(':')[0] + '.' + tgt.split('.')[1] if ':' in tgt.split('.')[0] else tgt
                     edges.setdefault(src, set()).add(tgt)
